@@ -50,6 +50,36 @@ def judge_plugin(st0, ops, props=None, classify=True):
     g90e = bool(st0.get("cfg", {}).get("g90e"))
     phys, virt = Printer(g90e), Printer(g90e)
     tracked_ok = [True]
+    # C06 at plugin level: the commands of one print, as the filter oracle's event list
+    seg = {"on": False}
+
+    def seg_spec(reg):
+        if isinstance(reg, impl.RectangularRegion):
+            return ("R", reg.id, reg.x1, reg.y1, reg.x2, reg.y2)
+        return ("C", reg.id, reg.cx, reg.cy, reg.r)
+
+    def seg_open():
+        c = dict(cur_settings.get("cfg") or {})
+        seg.clear()
+        seg.update(on=True, evs=[], res=[], cfg={
+            "regions": [seg_spec(g) for g in unit.state.excludedRegions], "g90e": bool(c.get("g90e")),
+            "enter": c.get("enter"), "exit": c.get("exit"), "ext": dict(c.get("ext") or {})})
+
+    def seg_close(idx):
+        if seg.get("on") and "C06" in props and seg["evs"]:
+            from . import oracle
+            try:
+                vv = [x for x in oracle.judge(seg["cfg"], seg["evs"], seg["res"], ["C06"]) if x[0] == "C06"]
+            except Exception:  # pylint: disable=broad-except
+                vv = []
+            for (_p, i, m) in vv[:2]:
+                viol("C06", "print ending at step %d, command %d (%r): %s" % (idx, i, seg["evs"][i], m))
+        seg["on"] = False
+
+    def seg_add(ev, res):
+        if seg.get("on"):
+            seg["evs"].append(ev)
+            seg["res"].append(res)
 
     def fresh_id():
         counter[0] += 1
@@ -70,10 +100,13 @@ def judge_plugin(st0, ops, props=None, classify=True):
             if k == "event":
                 unit.on_event(suites.event_value(op[1]), suites.event_payload(op))
                 if op[1] == "PRINT_STARTED":
+                    seg_close(idx)
                     active = True
                     phys, virt = Printer(g90e), Printer(g90e)
                     tracked_ok[0] = True
+                    seg_open()
                 elif op[1] in END_EVENTS:
+                    seg_close(idx)
                     active = False
                     if clear and unit.state.excludedRegions:
                         viol("C11", "step %d: %s with clear-after-print on left regions %r" % (
@@ -81,6 +114,7 @@ def judge_plugin(st0, ops, props=None, classify=True):
                     if not clear and [region_key(r) for r in unit.state.excludedRegions] != before_list:
                         viol("C11", "step %d: %s with clear-after-print off changed the region list" % (idx, op[1]))
                 elif op[1] == "FILE_SELECTED":
+                    seg_close(idx)      # another file: regions and tracking start afresh
                     if unit.state.excludedRegions:
                         viol("C11", "step %d: FILE_SELECTED left regions defined" % idx)
                 elif op[1] == "SETTINGS_UPDATED":
@@ -92,6 +126,7 @@ def judge_plugin(st0, ops, props=None, classify=True):
                     viol("C11", "step %d: after %s the plugin is %sactive, the lifecycle says %sactive" % (
                         idx, op[1], "" if unit._activePrintJob else "in", "" if active else "in"))  # pylint: disable=protected-access
             elif k == "save":
+                seg_close(idx)          # scripts / deferred codes may change: judged up to here
                 suites.apply_settings(unit, op[1])
                 cur_settings = op[1]
                 unit.on_event(suites.event_value("SETTINGS_UPDATED"), None)
@@ -108,6 +143,13 @@ def judge_plugin(st0, ops, props=None, classify=True):
                 after_regions = list(unit.state.excludedRegions)
                 after_list = [region_key(r) for r in after_regions]
                 rejected = resp is not None
+                if after_list != before_list and seg.get("on"):
+                    if command == "addExcludeRegion" and len(after_regions) == len(before_regions) + 1:
+                        seg_add(("addregion", seg_spec(after_regions[-1])), ("ok",))
+                    elif command == "deleteExcludeRegion":
+                        seg_add(("delregion", data.get("id")), ("ok",))
+                    else:
+                        seg_close(idx)  # geometry changed in place: judged up to here
                 if (rejected or anon) and after_list != before_list:
                     viol("C13", "step %d: rejected/unauthenticated request %r changed the region list" % (idx, op))
                 if rejected and after_list != before_list:
@@ -138,6 +180,20 @@ def judge_plugin(st0, ops, props=None, classify=True):
                     if impl.state_digest(unit.state) != before_state:
                         viol("C11", "step %d: no print active but %r changed the tracked state" % (idx, op[1]))
                 elif op[2]:
+                    if isinstance(r, tuple) and r and r[0] == "raised":
+                        seg_close(idx)
+                    elif seg.get("on"):
+                        # inside the filter oracle's dialect only: homed first; no origin shifts (K-D15),
+                        # arcs (K-D5/K-D10) or homing in mid-print (K-D18)
+                        words = op[1].upper().split()
+                        if not seg["evs"] and op[1].strip() != "G28":
+                            seg["on"] = False
+                        elif op[2] in ("M206", "G2", "G3") or (op[2] == "G28" and seg["evs"]) or \
+                                (op[2] == "G92" and any(w[0] in "XYZ" for w in words[1:])):
+                            seg_close(idx)
+                        else:
+                            seg_add(("g", op[1]), ("none",) if r is None else
+                                    (("list", [c for c in r]) if isinstance(r, list) else ("ignore",)))
                     try:
                         virt.execute(op[1])
                         if r is None:
@@ -161,6 +217,8 @@ def judge_plugin(st0, ops, props=None, classify=True):
                         phys.execute(c)
                 except Exception:  # pylint: disable=broad-except
                     tracked_ok[0] = False
+                if active:
+                    seg_add(("at", op[1], op[2], bool(op[3])), ("at", None, list(comm.sent)))
                 if not active and (comm.sent or impl.state_digest(unit.state) != before_state):
                     viol("C11", "step %d: no print active but @%s %s had an effect" % (idx, op[1], op[2]))
             elif k == "script":
@@ -171,6 +229,8 @@ def judge_plugin(st0, ops, props=None, classify=True):
                     r = unit.handleScriptHook(None, op[1], op[2])
                 except Exception as exc:  # pylint: disable=broad-except
                     r = ("raised", type(exc).__name__)
+                if r is not None:
+                    seg_close(idx)      # the hook closed the episode: the print is judged up to here
                 should = (op[1] == "gcode" and op[2] == "afterPrintDone" and active and was_excluding)
                 if classify and should and unknown_axis and r == ("raised", "TypeError"):
                     # known finding K-D20: an episode is closed while an axis position is still unknown
@@ -232,6 +292,7 @@ def judge_plugin(st0, ops, props=None, classify=True):
                 got = [suites.region_dict_digest(d) for d in payload.get("excluded_regions", [])]
                 if got != after_list or payload.get("event") != "ExcludedRegionsChanged":
                     viol("C13", "step %d: notification payload %r differs from the region list %r" % (idx, got, after_list))
+        seg_close(len(ops))
     return out
 
 
